@@ -566,6 +566,37 @@ def _vars(node):
     return [n["id"] for n, ps in find_all(node, lambda n: n["k"] == "Var")]
 
 
+def find_to_right(F):
+    """the crate's branch-side function, found by its definition (not its name or module): a free generic function
+    (branch: &P, child: &P) -> bool that evaluates to `child.is_bit_set(branch.prefix_len())` on every path"""
+    from .. import absint
+    found = []
+    for f in F.lib_fns():
+        if f.get("impl") or f.get("assoc") or len(f["inputs"]) != 2 or F.types[f["output"]]["s"] != "bool":
+            continue
+        t0, t1 = F.types[f["inputs"][0]], F.types[f["inputs"][1]]
+        if not (t0["t"] == "ref" and t1["t"] == "ref" and t0["s"] == t1["s"]) or f["path"] not in F.bodies:
+            continue
+        if not any((p.get("trait") or "").endswith("prefix::Prefix") for p in f["preds"]):
+            continue
+        names = [q["pat"]["name"] for q in F.bodies[f["path"]]["thir"]["params"] if q.get("pat") and q["pat"]["k"] == "Bind"]
+        if len(names) != 2:
+            continue
+
+        def hook(it, callee, fnref, args, n, fr):
+            if callee.endswith("prefix::Prefix::is_bit_set"):
+                return absint.SymV("is_bit_set(%s, %s)" % (it.psym(args[0]), repr(it.val_force(args[1]))))
+            return NotImplemented
+        try:
+            ps = absint.explore(F, f["path"], absint.default_args(F, f["path"]), {"loop_bound": 1, "hooks": {"call": hook}}, max_paths=8)
+        except Exception:
+            continue
+        want = "is_bit_set(*%s, prefix_len(*%s))" % (names[1], names[0])
+        if ps and all(p.result[0] == "ret" and repr(p.result[1]).replace("?", "") == want for p in ps):
+            found.append(f["path"])
+    return found[0] if len(found) == 1 else None
+
+
 def check_primitives(rep, F, rule, which):
     """definition checks for functions the interpreter treats as primitives (their bodies are not interpreted, so their meaning
     is pinned here): `to_right(branch, child) = child.is_bit_set(branch.prefix_len())`; `Table::index/index_mut` index the node
@@ -575,24 +606,12 @@ def check_primitives(rep, F, rule, which):
     cfg = F.config
     if "to_right" in which:
         short = "to_right"
-        b = F.body(short)
-        if b is None:
-            rep.bad(rule, short, "missing", "to_right not found", kind="unrecognised", config=cfg)
+        path = getattr(F, "to_right_path", None)
+        if path is None:
+            rep.bad(rule, short, "missing", "no function with the definition `child.is_bit_set(branch.prefix_len())` (the branch side of a link) was found",
+                    kind="unrecognised", config=cfg)
         else:
-            ids = _param_ids(F, F.short[short])
-            calls = find_all(b["thir"]["body"], lambda n: n["k"] == "Call" and n["fun"]["k"] == "FnRef")
-            outer = [n for n, ps in calls if n["fun"]["name"] == "is_bit_set"]
-            ok = False
-            if len(outer) == 1 and len(calls) == 2:
-                o = outer[0]
-                inner = o["args"][1]
-                ok = _vars(o["args"][0]) == [ids[1]] and inner["k"] == "Call" and inner["fun"]["k"] == "FnRef" and \
-                    inner["fun"]["name"] == "prefix_len" and _vars(inner) == [ids[0]]
-            if ok:
-                rep.ok(rule, short, "child.is_bit_set(branch.prefix_len())")
-            else:
-                rep.bad(rule, short, "definition", "to_right(branch, child) is no longer `child.is_bit_set(branch.prefix_len())`: the branch side of every "
-                        "link (and the relation oracle of the checks) is defined by exactly this bit", config=cfg)
+            rep.ok(rule, F.short_of.get(path, path), "child.is_bit_set(branch.prefix_len())", sample={"fn": path})
     for short, vec_callee, via in (("<Table as Index>::index", "<std::vec::Vec<T, A> as std::ops::Index<I>>::index", "as_ref"),
                                    ("<Table as IndexMut>::index_mut", "<std::vec::Vec<T, A> as std::ops::IndexMut<I>>::index_mut", "as_mut")):
         if "index" not in which:
